@@ -93,7 +93,8 @@ def _make_graph(mk):
     """target -> (set of prerequisite names incl. order-only, has_recipe), multiplicity"""
     prod = {}
     for r in mk._rules:
-        deps = set(_sfx(d) for d in r.deps) | set(_sfx(d) for d in r.order_only)
+        # order-only prerequisites do not trigger a rebuild: consumed files must be normal ones
+        deps = set(_sfx(d) for d in r.deps)
         for t in r.targets:
             prod.setdefault(_sfx(t), []).append((deps, r.recipe is not None))
     return prod
@@ -102,8 +103,7 @@ def _make_graph(mk):
 def _ninja_graph(nf):
     prod = {}
     for b in nf._builds:
-        deps = set(_sfx(d) for d in b.inputs) | set(_sfx(d) for d in b.implicit) | \
-            set(_sfx(d) for d in b.order_only)
+        deps = set(_sfx(d) for d in b.inputs) | set(_sfx(d) for d in b.implicit)
         for t in b.outputs:
             prod.setdefault(_sfx(t), []).append((deps, b.rule != 'phony'))
     return prod
@@ -137,13 +137,14 @@ def _check(prod, outputs, consumed):
 
 
 def e_edges(nfiles: int, haslib: bool, nextra: int, cextra: int, nout: int, hasalias: bool,
-            hasinc: bool, haspre: bool, hasver: bool) -> bool:
+            hasinc: bool, haspre: bool, hasver: bool, haspch: bool) -> bool:
     """a script made of object files, a static library, an executable, a multi-output build_step,
     a copy and an alias, with a symbolic shape: every output has exactly one producing rule in both
     backends and every step depends on everything it consumes
     pre: 1 <= nfiles <= 2 and 0 <= nextra <= 2 and 0 <= cextra <= 1 and 1 <= nout <= 2
     pre: nfiles == param('NFILES', 1) and haslib == bool(param('HASLIB', 0))
     pre: hasinc == bool(param('HX', 0) & 1) and haspre == bool(param('HX', 0) & 2) and hasver == bool(param('HX', 0) & 4)
+    pre: haspch == bool(param('HX', 0) & 8)
     post: _
     """
     build, ctx = infra._context()
@@ -154,6 +155,9 @@ def e_edges(nfiles: int, haslib: bool, nextra: int, cextra: int, nout: int, hasa
     if hasinc:
         # a header *file* passed through includes= is a dependency of the compile step
         ckw['includes'] = [ctx['header_file']('inc/cfg.h')]
+    if haspch:
+        # a precompiled header is an input of every compile step that uses it
+        ckw['pch'] = ctx['precompiled_header'](file='pch.h')
     objs = ctx['object_files'](srcs, extra_deps=hdrs[:cextra], **ckw)
     kw = {}
     libs = []
@@ -180,7 +184,10 @@ def e_edges(nfiles: int, haslib: bool, nextra: int, cextra: int, nout: int, hasa
         for i, s in enumerate(srcs):
             o = s[:-2] + '.o'
             ok = ok and _check(prod, [o], ['src:' + s] + ['src:h%d.h' % k for k in range(cextra)] +
-                               (['src:inc/cfg.h'] if hasinc else []))
+                               (['src:inc/cfg.h'] if hasinc else []) +
+                               (['pch.h.gch'] if haspch else []))
+        if haspch:
+            ok = ok and _check(prod, ['pch.h.gch'], ['src:pch.h'])
         consumed = [s[:-2] + '.o' for s in srcs] + ['src:h%d.h' % k for k in range(nextra)]
         if haslib:
             consumed.append('libutil.a')
